@@ -217,6 +217,17 @@ func genScript2(c *Ctx) (*script2, *script2) {
 		lead = append(lead, round2Spec{Num: M + 1, Recv: false})
 	}
 	final := M + 1
+	if c.Intn(3) == 0 {
+		// the symmetric shape of protocols/example (XOR): BOTH parties start in a round that consumes nothing and sends,
+		// then exchange one message per round. The non-leader does not move in its constructor: the peer's round-2 message
+		// reaches it while it is still in round 1 and has to wake it up.
+		lead, foll = nil, nil
+		for k := 1; k <= M+1; k++ {
+			sp := round2Spec{Num: k, Recv: k > 1, Send: k <= M, SendNum: k + 1}
+			lead, foll = append(lead, sp), append(foll, sp)
+		}
+		final = M + 2
+	}
 	mk := func(self, peer string, rounds []round2Spec, leader bool) *script2 {
 		s := &script2{IDs: []string{a, b}, Self: self, Peer: peer, Final: final, Rounds: rounds, Proto: "verif/two", Leader: leader}
 		return s
